@@ -49,6 +49,19 @@ func c18Internal(c *ctx) {
 			}
 		}
 	}
+	// multi-byte keys and texts, whole and truncated characters
+	for _, ins := range []bool{true, false} {
+		for _, ct := range []string{"é", "É", "日", "ü"} {
+			for _, nc := range []string{"", "Ü", "é"} {
+				cb := &generic.Callback{Contains: ct, NotContains: nc, Insensitive: ins}
+				for _, tx := range []string{"é", "É", "aÉb", "\xc3", "\xa9", "\x89", "日本", "\xe6\x97", "Üé", "üÉ", "xü"} {
+					lines = append(lines, fmt.Sprintf("c18 chk %s %s %s %s", b2s(ins), vlib.Hex([]byte(ct)), vlib.Hex([]byte(nc)), vlib.Hex([]byte(tx))))
+					want = append(want, b2s(cb.VerifCheck([]byte(tx))))
+					desc = append(desc, fmt.Sprintf("check(contains=%q not=%q insensitive=%v)(%q)", ct, nc, ins, tx))
+				}
+			}
+		}
+	}
 	nExh := len(lines)
 	for _, src := range []string{`ab`, `(?i)ab`, `B+a`} {
 		term, _ := facts.PatternToLean(src)
